@@ -23,7 +23,8 @@ package main
 // hash descriptors: "=" hash of the header's own valset as the router computes it, "L=" / "N=" legacy (amino) /
 // new (protobuf, cosmos block version >= 11) hash of the own valset, "L<vals>" / "N<vals>" the same of another
 // valset, "x<k>" arbitrary 32 bytes no. k, "e" empty.
-// bid: "=" BlockID with the header's hash, "o" another hash, "z" the zero BlockID.
+// bid: "=" BlockID with the header's hash, "o" another hash, "z" the zero BlockID, "t" BlockID quoting the block hash of
+// the epoch info tracked when the header is defined (bad-op without tracked info).
 // slots (cosmos, okex): "-" or comma list of: a absent | g<i> for-block vote signed by key i | n<i> nil vote signed
 // by key i | w<i> for-block, key i signed other bytes | b for-block, garbage signature | A absent flag with a
 // signature | E<i> for-block, empty signature | u<i> unknown BlockIDFlag.
@@ -109,6 +110,8 @@ type tmBuilt struct {
 	setHashN  []byte // new-style hash (cosmos only, nil otherwise)
 	total     int64
 	nvhDiffer bool // NextValidatorsHash != ValidatorsHash (bytes)
+	// the commit is for this header: Commit.BlockID.Hash equals the recomputed header hash and the heights agree
+	commitForHeader bool
 	// signerPower(chain) = power of the DISTINCT valset entries for which some slot carries a for-block vote whose
 	// signature verifies under the entry's key over the vote's own canonical sign bytes for that chain id.
 	signerPower func(chain string) int64
@@ -277,7 +280,7 @@ func tmParseHdr(op []string, heimdall bool) (*tmHdr, bool) {
 	if d.round, err = strconv.ParseInt(op[10], 10, 32); err != nil {
 		return nil, false
 	}
-	if len(op[11]) != 1 || strings.IndexByte("=oz", op[11][0]) < 0 {
+	if len(op[11]) != 1 || strings.IndexByte("=ozt", op[11][0]) < 0 {
 		return nil, false
 	}
 	d.bid = op[11][0]
@@ -548,6 +551,14 @@ func (f *tmFam) justify(r *hx.Run, what, name string, b *tmBuilt, cur tmTracked)
 	if !(string(cur.next) == string(b.setHashL) || (b.setHashN != nil && string(cur.next) == string(b.setHashN))) {
 		r.Viol("C30:"+rn+":advanced-with-untrusted-valset", fmt.Sprintf("%s accepted header %s whose validator set does not hash to the trusted next-validators hash %s",
 			what, name, f.idOf(cur.next)))
+	}
+	if !b.commitForHeader {
+		key := "C30:" + rn + ":advanced-with-unverified-header"
+		if what != "sync" {
+			key = "C30:" + rn + ":" + what + "-accepted-with-unverified-header"
+		}
+		r.Viol(key, fmt.Sprintf("%s accepted header %s (height %d) whose commit is not for it: Commit.BlockID.Hash differs from the recomputed header hash (or the commit height from the header height), so no signature in it speaks for this header",
+			what, name, b.height))
 	}
 	chain := cur.chain
 	if f.rt.usesHeaderChain() {
